@@ -130,6 +130,17 @@ impl Monitor for C17 {
                 }
             }
         }
+        // a name that is not valid UTF-8 (24 bytes, 'wal-' + 0xff + 19 digits)
+        {
+            use std::os::unix::ffi::OsStrExt;
+            let mut raw = b"wal-".to_vec();
+            raw.push(0xff);
+            raw.extend_from_slice(b"0000000000000000001");
+            let p = dir.join(std::ffi::OsStr::from_bytes(&raw));
+            if std::fs::write(&p, b"not utf-8 named").is_ok() {
+                acc.count("non_utf8_named_foreign_files");
+            }
+        }
         // far-above names: never reached by rolling
         let far = (1u64 << 40) + rng.below(1000);
         let far_dir = format!("wal-{:020}", far);
